@@ -17,7 +17,8 @@ is attributed to C13, not to C04: exactness does not depend on the branch polari
 Dependency suites (rules/deps.py; each obligation is a necessary condition of this property, reported under its own rule id):
 kernel-build (C07.T-conn, C07.T-ite0, C07.R-ite, S.F-memo ite_cache, S.R-node, S.R-new, S.W-store, C06.W-ctor), kernel-restrict
 (C07.R-restrict, S.F-memo restrict_cache) and translation (C09.A-wire, C09.A-term, C09.F-order, C09.A-name, C01.A-hybrid): an answer
-is computed on diagrams built by these functions, on every back-end. Additionally C13.R-cubes (Bdd::interpretations, whose cubes the search branches on)."""
+is computed on diagrams built by these functions, on every back-end.  cli-plumbing (C08.F-input, C10.P-cli, C10.F-print): what every answer
+printed by adf-bdd passes through, whatever the semantics. Additionally C13.R-cubes (Bdd::interpretations, whose cubes the search branches on)."""
 NOT_DECIDED = "Correctness of the `will_be` pruning and 'each reported once' for all ADFs and diagram shapes: a property of an unbounded branching search."
 TECHNIQUE = "static analysis: exhaustive-consumption rule over iterator chains, filter-provenance, finite-domain closure tables"
 
@@ -400,3 +401,4 @@ def check(ctx):
         F_branch(ctx, lib)
         deps.cubes(ctx, lib)
         deps.semantics_base(ctx, lib)
+    deps.cli_plumbing(ctx)
